@@ -305,6 +305,14 @@ def statevector_views(cx, N, rwa, blocks=None):
         outer = numpy.outer(stored[i], numpy.conj(stored[i]))
         cx.prove_eq("density_matrix_view[%d]" % i, dme.data[i], outer, tol=1e-9)
     if not rwa:
+        # dynamics computed in the laboratory frame: a conversion request is the identity (as it is for
+        # density-matrix evolutions)
+        try:
+            pr.convert_from_RWA(ham)
+        except Exception as e:      # noqa: BLE001
+            cx.fail("lab_frame_conversion_is_identity", "%s: %s" % (type(e).__name__, str(e)[:100]))
+            return
+        cx.prove_eq("lab_frame_conversion_is_identity", pr.data, stored, tol=1e-12)
         return
     cx.prove("flagged_in_rwa", getattr(pr, "is_in_rwa", None) is True)
     try:
